@@ -218,4 +218,52 @@ CLAIMED = {
              "exempt for a stated reason; Future::wait running an unstarted future inline has no limit and is a recorded known finding.",
         note="bytes of stack and user-level recursion are not decided",
     ),
+    "C11": dict(
+        technique="must-pass/ordering rules on type-erased callables, ownership typestate on skip paths, template-argument pairing of small-buffer "
+                  "alloc/free, and guarded-index rule on a frozen table of fixed-size arrays (clang AST/CFG)",
+        text="Four named clauses: callables are run (if requested) then destroyed on every path and spills freed with their own size class; a "
+             "OnceFunction that will not run is still disposed of (packaged skip path, entry points, pipeline discard paths); every deallocSmallBuffer<J> "
+             "matches its allocSmallBuffer<K>; writes into the tabled fixed-size arrays are bounded in the NDEBUG configuration (g_taskStack is a recorded "
+             "known finding).",
+        note="everything else a sanitizer could observe is not decided",
+    ),
+    "C32": dict(
+        technique="per-path balance of size decrements vs destructor calls (finite-state), destroy-loop shape rule, and no-placement-new-over-live-element rule (clang CFG)",
+        text="Lifetime clause only: operations that lower size_ destroy what they vacate (erase single/range, pop_back, resize, clear); insert assigns "
+             "into the live element left by insertPartial instead of constructing over it; insertPartial constructs before move_backward.",
+        note="equality of contents/positions with std::vector is a value property and is not decided",
+    ),
+    "C34": dict(
+        technique="guard-dominance (acquire(seq)==ticket and winning cursor CAS) + must-pass-through release store + per-path destroy counting over clang CFGs",
+        text="Every construct/move-out/destroy of a slot element happens after the acquire check of the slot's sequence number and the successful "
+             "compare-exchange that claims the ticket, and is followed on every path by the release store that hands the slot on; pops destroy once; "
+             "the destructor destroys [head, tail).",
+        note="FIFO order, linearizability and the capacity bound are not decided",
+    ),
+    "C35": dict(
+        technique="dominance of slot accesses by the acquire load of the other side's cursor + must-pass-through release store of the own cursor (clang CFG)",
+        text="Producer forms construct only after acquire(head_) and publish by release store of tail_ on every path; consumer forms consume only after "
+             "acquire(tail_), destroy once, and free the slot by release store of head_; neither side writes the other's cursor; destructor destroys the rest.",
+        note="FIFO order and capacity arithmetic are not decided",
+    ),
+    "C36": dict(
+        technique="fence must-pass rule, CAS-order/result-use rule, who-may-write rule on the two cursors (clang CFG)",
+        text="seq_cst fences separate the cursor accesses in pop and steal on every path; the last-element race and every steal are decided by a seq_cst "
+             "CAS t -> t+1 whose result is used; push publishes with release after writing the slot, steals acquire bottom_; bottom_ is written only by "
+             "owner operations, top_ only by CAS; an empty pop restores bottom_; steals read the slot before claiming it.",
+        note="the Chase-Lev correctness argument itself (all interleavings) is not decided",
+    ),
+    "C38": dict(
+        technique="type witness read from the type-checked AST (alignof(T), resolved allocation overload) + lifetime ordering/balance rules (clang CFG)",
+        text="For each instantiated growToHeap the heap allocation must be an aligned form when alignof(T) exceeds the default new alignment (the "
+             "over-aligned witness fails today: recorded known finding); growToHeap moves then destroys each element and frees the old heap block only when "
+             "one is owned; pop_back/erase balance decrements and destructors; destroyAll destroys all and frees iff heap.",
+        note="equality of contents with std::vector is not decided",
+    ),
+    "C47": dict(
+        technique="call-graph reachability over resolved callees from every ForceQueuingTag entry point, with one guarded exemption (clang AST/CFG)",
+        text="No function reachable from an FQ entry point invokes a functor/task on the calling thread, except forceEnqueue's inline call under "
+             "numThreads_ == 0; FQ entry points never call an untagged scheduling function of the same family.",
+        note="that the queued task eventually runs is C01",
+    ),
 }
